@@ -36,10 +36,10 @@ def replay_shard(p):
   if k < 1 or not 0 <= i < k or s > e or s < 0 or k > 200:
     return dict(violated=False, detail='witness outside the replayable domain (not a constructible source)')
   src = _mk(s, e)
-  ivs = [(x._start, x._end) for x in (src.shard(j, k) for j in range(k))]
+  ivs = [(x.start, x.end) for x in (src.shard(j, k) for j in range(k))]
   got = src.shard(i, k, off)
-  ok = _partition_ok(ivs, s, e) and (got._start, got._end) == (ivs[i][0] + off, ivs[i][1])
-  return dict(violated=not ok, detail=f'the {k} shards of [{s},{e}) are {ivs}; shard({i},{k},offset={off}) -> [{got._start},{got._end}): '
+  ok = _partition_ok(ivs, s, e) and (got.start, got.end) == (ivs[i][0] + off, ivs[i][1])
+  return dict(violated=not ok, detail=f'the {k} shards of [{s},{e}) are {ivs}; shard({i},{k},offset={off}) -> [{got.start},{got.end}): '
               'not an ordered partition into parts whose sizes differ by at most one (or the offset is not added to the start)')
 
 
@@ -55,7 +55,7 @@ def bounded_shard(p):
       src = io.SequenceDataSource(list(range(n)))
       for k in range(1, K):
         shards = [src.shard(i, k) for i in range(k)]
-        got = [(x._start, x._end) for x in shards]
+        got = [(x.start, x.end) for x in shards]
         if not S.check(_partition_ok(got, s0, s0 + n), dict(start=s0, end=s0 + n, num_shards=k, shard_index=0, offset=0),
                        f'shards of [{s0},{s0 + n}) into {k}: {got} is not an ordered partition into parts whose sizes differ by at most one'):
           return S.result()
